@@ -95,6 +95,9 @@ def validate(jobs, status, workdir, design=None, workers=NCPU, timeout=300):
     return pmap(one, jobs, workers=workers)
 
 
+_NOT_PIPE = tuple('{"e":"%s"' % e for e in ("Lacon", "Trsv", "GsconBegin", "GsconEnd", "Call", "End"))
+
+
 def prepare(path):
     """Turn a raw event file into per-factorization trace files:
     line 1 = Config synthesized from the logged Etree/SuperBnd/Create events (the elimination tree,
@@ -118,6 +121,8 @@ def prepare(path):
             cur["sbnd"] = json.loads(ln)
         elif ln.startswith('{"e":"Create"'):
             cur["create"] = ln
+        elif ln.startswith(_NOT_PIPE):
+            continue      # events of other wrapped routines (condition estimation, triangular solves): not part of a factorization
         else:
             cur["lines"].append(ln)
     outs = []
@@ -169,3 +174,29 @@ def explain(r, path):
             ln = "?"
         return "event at line %d is not a step of the specification: %s" % (r["rejected_line"], ln[:300])
     return "TLC error: " + "; ".join(r["errors"][:3])
+
+
+def repo_test_driver(prec="d", variant="verif"):
+    """The repository's own test driver TESTING/p?drive.c, unmodified, linked with the hooked library
+    and the event runtime: the existing tests become trace generators."""
+    T = os.path.join(build.REPO, "TESTING")
+    srcs = [os.path.join(T, f % prec) for f in ("p%sdrive.c", "sp_%sconvert.c", "p%sgst01.c", "p%sgst02.c", "p%sgst04.c", "p%sgst07.c", "p%sgssv.c", "p%sgssvx.c")]
+    import glob
+    srcs += sorted(glob.glob(os.path.join(T, "MATGEN", "*.c")))
+    return build.harness("repo_p%stest" % prec, srcs + ["verif_rt.c"], variant=variant, extra_link=["-I" + T], wrap=["pthread_mutex_unlock"])
+
+
+def run_repo_test(prec, args, outdir, name, perturb=0, timeout=900):
+    exe = repo_test_driver(prec)
+    stream = os.path.join(outdir, name + ".stream.ndjson")
+    if os.path.exists(stream):
+        os.remove(stream)
+    e = dict(os.environ, VERIF_STREAM=stream, VERIF_EVCAP=str(1 << 20))
+    if perturb:
+        e["VERIF_PERTURB"] = str(perturb)
+    try:
+        p = subprocess.run([exe] + args, capture_output=True, text=True, env=e, timeout=timeout)
+        rc = p.returncode
+    except subprocess.TimeoutExpired:
+        rc = -9
+    return rc, stream
